@@ -42,7 +42,9 @@ MinVal == CHOOSE v \in Vals : \A u \in Vals : v <= u
 \* ------------------------------------------------------ op enumeration --
 \* ways to consume the rest of a cursor that has `m` items left: plain (none), nth inside the
 \* range, nth just beyond / far beyond the end, last, fold
-FinsFor(m) == {<<"none", 0>>, <<"last", 0>>, <<"fold", 0>>} \cup {<<"nth", j>> : j \in {0, 1, m, m + 2}}
+\* (Huge stands for usize::MAX: the replay passes exactly that to nth)
+Huge == 2000000000
+FinsFor(m) == {<<"none", 0>>, <<"last", 0>>, <<"fold", 0>>} \cup {<<"nth", j>> : j \in {0, 1, m, m + 2, Huge}}
               \cup {<<"any", 0>>, <<"any", m>>, <<"all", 1>>, <<"position", 1>>, <<"find", 1>>, <<"find", m>>}
 
 CoreOps(ts) ==
